@@ -549,10 +549,12 @@ func translate(l *load.Loaded, pkg *packages.Package, h *helper, s *site, n int,
 			}
 		}
 	}
-	if mode == "tail" {
+	if mode != "generic" {
 		for i := 0; i < nres; i++ {
 			if nm := sig.Results().At(i).Name(); nm != "" {
-				mode = "generic" // a bare return of the helper would return the caller's results
+				// named results: a bare return of the helper stands for their current values
+				mode, contIf, stmtEnd = "generic", nil, stmt.End()
+				newVars = nil
 			}
 		}
 	}
